@@ -37,6 +37,9 @@ theorem lm_readers_block_not_drop (c : LM.Cfg) (s s' : LM.St) (op : LM.Op) (r : 
     simp at h; subst h; rw [lmInGet_wake]; exact hin
   cases op with
   | hbRead => simp [LM.step?] at hs; subst hs; rw [hpc] at hpc'; simp at hpc'; subst hpc'; exact Or.inl hin
+  | mark r0 =>
+    simp only [LM.step?] at hs; split at hs <;> simp at hs; subst hs
+    rw [hpc] at hpc'; simp at hpc'; subst hpc'; exact Or.inl hin
   | hbFire =>
     simp [LM.step?] at hs; subst hs
     split at hpc'
@@ -125,6 +128,9 @@ theorem std_readers_block_not_drop (s s' : Std.St) (op : Std.Op) (r : Nat) (pc p
     simp at h; subst h; rw [stdInGet_wake]; exact hin
   cases op with
   | hbRead => simp [Std.step?] at hs; subst hs; rw [hpc] at hpc'; simp at hpc'; subst hpc'; exact Or.inl hin
+  | mark r0 =>
+    simp only [Std.step?] at hs; split at hs <;> simp at hs; subst hs
+    rw [hpc] at hpc'; simp at hpc'; subst hpc'; exact Or.inl hin
   | hbFire =>
     simp [Std.step?] at hs; subst hs
     split at hpc'
